@@ -138,11 +138,19 @@ class FileResponseMixin:
         }
         if download_name or content_type == "application/octet-stream":
             download_name = download_name or os.path.basename(filepath)
-            content_disposition = (
-                "attachment; "
-                f'filename="{download_name}"; '
-                f"filename*=utf-8''{quote(download_name)}"
-            )
+            try:
+                download_name.encode("latin-1")
+            except UnicodeEncodeError:
+                # header text must be latin-1: only the RFC 5987 form can carry the name
+                content_disposition = (
+                    f"attachment; filename*=utf-8''{quote(download_name)}"
+                )
+            else:
+                content_disposition = (
+                    "attachment; "
+                    f'filename="{download_name}"; '
+                    f"filename*=utf-8''{quote(download_name)}"
+                )
             headers["content-disposition"] = content_disposition
 
         return headers
